@@ -238,6 +238,11 @@ def jobs(tier, seed):
         add('reweight', lw=W, lo_list=[{'e|r1': cf[:5]}], all_configs=False, method='method')
         add('reweight', lw=W, lo_list=[{'e|r1': cf[1:6]}, {'e|r1': cf[1:6]}, {'e|r1': cf[1:6]}], all_configs=False, method='corr')
         add('reweight', lw=W, lo_list=[{'e|r1': cf[1:]}, {'e|r1': cf[1:]}], all_configs=True, method='corr')
+    # several observables in one call: same length and end points, different interior; a repeated layout; a multi-replica list
+    for ac in (False, True):
+        add('reweight', lw=W1, lo_list=[{'e|r1': [1, 2, 4, 7, 8]}, {'e|r1': [1, 3, 5, 6, 8]}, {'e|r1': [1, 2, 4, 7, 8]}], all_configs=ac, method='function')
+        add('reweight', lw=W1s, lo_list=[{'e|r1': [2, 4, 8, 12, 14]}, {'e|r1': [2, 6, 8, 10, 14]}], all_configs=ac, method='function')
+        add('reweight', lw=W2, lo_list=[{'e|r1': [1, 2, 4, 6, 7], 'e|r2': [1, 3, 5, 7, 9, 11]}, {'e|r1': [1, 3, 4, 5, 7], 'e|r2': [1, 3, 7, 9, 11]}], all_configs=ac, method='function')
     for W in (W2, W3):
         names = sorted(W)
         import itertools
